@@ -559,11 +559,36 @@ def _identity_hooks(prog: Program, col: Collector, refs: Refs, cat: Catalogue):
         col.check(m is not None and isinstance(r, ast.Name) and r.id == m.positional[0], f"funsor.ops.op::Op.{name}", "returns self",
                   f"Op.{name} does not return self: copies of an op are distinct objects", m.loc() if m else op.module.loc(op.node))
     m = op.methods.get("__reduce__")
-    r = single_return(m) if m else None
-    ok = m is not None and isinstance(r, ast.Tuple) and len(r.elts) == 2 and isinstance(r.elts[1], ast.Tuple) and r.elts[1].elts \
-        and norm(r.elts[1].elts[0]) == f"type({m.positional[0]})"
+    rets = [n.value for n in walk_no_nested(m.node) if isinstance(n, ast.Return) and n.value is not None] if m else []
+    ok = bool(rets) and all(isinstance(r, ast.Tuple) and len(r.elts) == 2 and isinstance(r.elts[1], ast.Tuple) and r.elts[1].elts
+                            and norm(r.elts[1].elts[0]) == f"type({m.positional[0]})" for r in rets)
     col.check(ok, "funsor.ops.op::Op.__reduce__", "unpickling re-applies type(self), i.e. the interning metaclass",
               "Op.__reduce__ does not go through type(self): unpickled ops are not interned", m.loc() if m else op.module.loc(op.node))
+    # ... with ALL the parameters of the instance (a parameter left out is replaced by its default on load: a different op)
+    if ok:
+        selfn = m.positional[0]
+        locals_ = {}
+        for n in walk_no_nested(m.node):
+            if isinstance(n, ast.Assign) and len(n.targets) == 1 and isinstance(n.targets[0], ast.Name):
+                locals_.setdefault(n.targets[0].id, []).append(n.value)
+        for r in rets:
+            params = r.elts[1].elts[-1] if len(r.elts[1].elts) >= 2 else None
+            e = params
+            if isinstance(e, ast.Name) and len(locals_.get(e.id, [])) == 1:
+                e = locals_[e.id][0]
+            construct = "funsor.ops.op::Op.__reduce__::parameters"
+            full = f"{selfn}.defaults"
+            if e is None:
+                col.violation(construct, "the pickled form carries no parameters", m.loc())
+            elif norm(e) == full or (isinstance(e, ast.Call) and ((norm(e.func) in ("dict", "OrderedDict") and len(e.args) == 1 and norm(e.args[0]) == full)
+                                                                  or (isinstance(e.func, ast.Attribute) and e.func.attr == "copy" and norm(e.func.value) == full))):
+                col.ok(construct, "the pickled form carries all of self.defaults", m.loc())
+            elif isinstance(e, ast.DictComp) and full in norm(e.generators[0].iter):
+                col.check(not e.generators[0].ifs, construct, "all parameters are kept",
+                          f"parameters are filtered by `{' and '.join(norm(c) for c in e.generators[0].ifs)}` before pickling: an op with a zero-like non-default parameter "
+                          "(axis=0, dim=0) unpickles as a different op (and a term built from it as a different term)", m.loc())
+            else:
+                col.unresolved(construct, f"parameters expression `{norm(e)}` not recognised", m.loc())
     # domains
     dm = prog.modules.get("funsor.domains")
     regs = [n for n in ast.walk(dm.tree) if isinstance(n, ast.Call) and refs.resolve(n.func) == "copyreg.pickle"]
